@@ -118,7 +118,11 @@ CLAIMED = {
   technique="Lean 4 proof (substitution lemma for straight-line programs) + translators (lambdify seam, generated C++ text)",
   design="5 C08"),
  "C12": dict(
-  text="Lean 4 theorems (FormakVerif.C12: arity over all four control x calibration combinations by decide; tick_eq_byhand from the C11 refinement) "
+  text="Lean 4 theorems (FormakVerif.C12: arity over all four control x calibration combinations by decide; tick_eq_byhand from the C11 refinement; "
+       "over the interface model EkfDef.iface / Managed.* of Model/Iface.lean - Tag aliases, declared parameter lists, SensorId members against "
+       "ManagedFilter's compatible, if-constexpr call shapes, enable_if constructors and static_asserted tick overloads - generated_compatible, "
+       "calls_match_declarations, one_constructor, tick_overloads, sensor_ids_count for EVERY definition and sensor count; the header text of every "
+       "generated filter is read back and compared with the model's interface) "
        "plus an exhaustive tie over the finite configuration space {control} x {calibration} x sensors {0,1,3} x max_dt {default, other}: generate, "
        "compile with static_assert(ManagedFilter<...>::compatible), tick with/without readings and compare bit-for-bit with by-hand calls of the "
        "generated filter's functions along the Lean step plan.",
